@@ -1,6 +1,27 @@
 (* Harness.v — glue evaluated by harness-generated case files. *)
+From Coq Require Import Uint63.
 From Rend Require Import base.Bytes.
 Open Scope N_scope.
+
+(* byte strings packed 7 bytes per primitive 63-bit integer: case files of hundreds of
+   kilobytes parse in seconds this way (string literals take minutes). [bx n ws] is the
+   byte string of length n whose bytes are the big-endian digits of the words, 7 per word,
+   the last word holding the remaining n mod 7 (or 7) bytes. Used only in case files. *)
+Definition word_bytes (k : nat) (w : int) : bytes :=
+  (fix go (k : nat) (w : int) (acc : bytes) : bytes :=
+     match k with
+     | O => acc
+     | S k' => go k' (w >> 8)%uint63 (Z.to_N (to_Z (w land 255)%uint63) :: acc)
+     end) k w [].
+Fixpoint bx_nat (n : nat) (ws : list int) : bytes :=
+  match ws with
+  | [] => []
+  | w :: r => match r with
+              | [] => word_bytes n w
+              | _ => word_bytes 7 w ++ bx_nat (n - 7) r
+              end
+  end.
+Definition bx (n : N) (ws : list int) : bytes := bx_nat (N.to_nat n) ws.
 
 Fixpoint bad_from {A} (f : A -> N) (i : N) (l : list A) : list (N * N) :=
   match l with
